@@ -43,6 +43,30 @@ def norm(node: ast.AST | str) -> str:
         return type(node).__name__
 
 
+def canon(construct: "ast.AST | str") -> str:
+    """alpha-canonical form of a construct: every Name is replaced by v0, v1, ... in order of first occurrence, so that
+    table rows and known findings keep matching when local variables are renamed.  Falls back to the normalised text
+    when the construct is not a parsable statement/expression."""
+    text = norm(construct)
+    try:
+        tree = ast.parse(text)
+    except SyntaxError:
+        return text
+    # a bare name (or `not name`) carries no structure besides the name itself: keep it
+    body = tree.body[0] if len(tree.body) == 1 else None
+    if isinstance(body, ast.Expr) and isinstance(body.value, (ast.Name, ast.Constant)):
+        return text
+    # assign in source order, not walk order
+    order: dict[str, str] = {}
+    for n in sorted((x for x in ast.walk(tree) if isinstance(x, ast.Name)), key=lambda x: (x.lineno, x.col_offset)):
+        if n.id not in order:
+            order[n.id] = "v%d" % len(order)
+    for n in ast.walk(tree):
+        if isinstance(n, ast.Name):
+            n.id = order[n.id]
+    return norm(ast.unparse(tree))
+
+
 class Module:
     def __init__(self, name: str, path: Path, rel: str, text: str):
         self.name = name
@@ -401,7 +425,7 @@ class Report:
         return (
             k.get("rule") == f["rule"]
             and k.get("function") == f["function"]
-            and norm(k.get("construct", "")) == f["construct"]
+            and canon(k.get("construct", "")) == canon(f["construct"])
         )
 
     def finish(self) -> int:
